@@ -89,6 +89,12 @@ func (p *clientStreamProcessorFMP4) run(ctx context.Context) error {
 		return fmt.Errorf("no supported tracks found")
 	}
 
+	for _, track := range p.init.Tracks {
+		if track.TimeScale == 0 {
+			return fmt.Errorf("track %d has an invalid timescale", track.ID)
+		}
+	}
+
 	if !p.isLeading && len(p.init.Tracks) != 1 {
 		return fmt.Errorf("rendition playlists with multiple tracks are not supported")
 	}
